@@ -12,7 +12,7 @@ func init() {
 	core.Register(&core.Check{
 		ID:    "C13",
 		Level: "model_checking",
-		Rule: "Part 2 (model checking): per wrapper kind (struct pointer/value, map[string|int|float64|uint8]T, []T, *[]T, [N]T, []interface{}, map[string]interface{}, nested combinations; 35 kinds) a breadth-first search over ALL histories up to the reported depth of script ops {take an element wrapper and keep it, get, set, delete, defineProperty, push, pop, shift, unshift, splice, sort, reverse, length=} on the root wrapper and on held element wrappers, with indices 0..len+2 (fixed-size arrays are written one and two past their end) and values {numbers, strings, null, object/array literals, held wrappers, elements of the root}, interleaved with Go-side mutations {assign field/element, append in place and with re-allocation, reslice, replace/delete/add map entry, replace the whole value}; every transition is executed in lock-step on goja and on the shadow model (twin Go value + documented copy-on-change rule), comparing the op result, the Go-side state after every op and, in every state, everything script can observe (dump, Object.keys, for-in, JSON.stringify, spread, in/hasOwnProperty, length) and Export() identity; states are de-duplicated by the model's canonical key (Go value dump + live element references + what every held wrapper denotes; a mutation attempt that threw is kept as a state of its own). " +
+		Rule: "Part 2 (model checking): per wrapper kind (struct pointer/value, map[string|int|float64|uint8]T, []T, *[]T, [N]T, []interface{}, map[string]interface{}, nested combinations; 38 kinds) a breadth-first search over ALL histories up to the reported depth of script ops {take an element wrapper and keep it, get, set, delete, defineProperty, push, pop, shift, unshift, splice, sort, reverse, length=} on the root wrapper and on held element wrappers, with indices 0..len+2 (fixed-size arrays are written one and two past their end) and values {numbers, strings, null, object/array literals, held wrappers, elements of the root}, interleaved with Go-side mutations {assign field/element, append in place and with re-allocation, reslice, replace/delete/add map entry, replace the whole value}; every transition is executed in lock-step on goja and on the shadow model (twin Go value + documented copy-on-change rule), comparing the op result, the Go-side state after every op and, in every state, everything script can observe (dump, Object.keys, for-in, JSON.stringify, spread, in/hasOwnProperty, length) and Export() identity; states are de-duplicated by the model's canonical key (Go value dump + live element references + what every held wrapper denotes; a mutation attempt that threw is kept as a state of its own; plus a white-box tag: occupancy of goja's element-wrapper caches over their whole capacity); three kinds start every history after a preamble that reads all element wrappers and add descending traversals. " +
 			"Part 1 (exhaustive enumeration): every Go type of nesting <= the reported bound built by reflect over 20 leaf kinds and 9 constructors (pointer, slice, array, 3 map key kinds, 2 struct forms, func) plus a hand-written catalogue (embedded/unexported/tagged fields, method sets, named types, cycles) x boundary value pools x the 3 FieldNameMappers: script view == independent prediction, Export() identity, ExportTo own type deep-equal; every script-built object graph with <= N nodes (object/array nodes, two slots each, any target incl. itself) through 8 export routes: isomorphic image (sharing and cycles preserved); all func signatures with <= 2 parameters over 11 parameter types x variadic x 6 result lists in both directions with all argument tuples / returned values / thrown payloads. " +
 			"Non-trivial = a state that is new under the canonical key (part 2) or a distinct enumerated type / graph / call (part 1); cases are distinct by construction.",
 		Run:    run,
